@@ -359,7 +359,15 @@ def family(ctx, feat, name):
                 if 'comp' not in pl and 'no_pos_ahead' not in pl:
                     writes.append(pl)
             for (blk, c) in pth.calls:
-                if c.is_(*INERT_FAMILY) or c.is_(*PURE_CALLS) or c.is_(r'^std::mem::swap', r'Try>::branch$', r'FromResidual'):
+                if c.is_(r'^std::mem::(swap|replace|take)'):
+                    # a swap is a write to both places: only the completion fields may be exchanged
+                    for a in c.args:
+                        for r in provenance(b, a, c.bb, 'term'):
+                            fld = [x for x in r.path if not x.startswith('as ') and not x.isdigit()]
+                            if r.kind == 'param' and fld and not any(x in ('comp', 'no_pos_ahead', 'comps') for x in fld):
+                                writes.append('%s.%s (through mem::%s)' % (r.what, '.'.join(fld), c.name.split('::')[-1].split('<')[0]))
+                    continue
+                if c.is_(*INERT_FAMILY) or c.is_(*PURE_CALLS) or c.is_(r'Try>::branch$', r'FromResidual'):
                     continue
                 calls_bad.append(short(c.name))
         is_pred = b.local_ty(0) in ('bool',) or b.local_ty(0).startswith('std::option::Option<')
